@@ -23,6 +23,7 @@ func Main(args []string) int {
 	replay := fs.String("replay", "", "re-evaluate the obligation recorded in this violation file against the current tree")
 	matrixSeed := fs.String("matrix-seed", "", "dev: with -matrix, only this seeded change (directory name under /verif/seeded)")
 	matrix := fs.Bool("matrix", false, "dev: apply every confirmed seeded change as an overlay and run every property on it; prints which rules report it")
+	unmentioned := fs.Bool("unmentioned", false, "dev: run every property and list, for each function that has a site table, the effects no table row mentions")
 	uncovered := fs.Bool("uncovered", false, "dev: after the run list the functions of the property's anchor files that no obligation refers to (by key or position)")
 	list := fs.String("list", "", "dev: after the run print every obligation whose key contains the value (rule, status, key, position)")
 	battery := fs.String("battery", "", "dev: run the overlay mutants of this property (all, or those whose id contains the value) and print caught/missed")
@@ -128,6 +129,9 @@ func Main(args []string) int {
 				}
 			}
 		}
+		if *dump == "narrowing" {
+			DumpNarrowing(p)
+		}
 		if *dump == "funcs" {
 			for _, f := range p.Funcs {
 				fmt.Println(FuncName(f), p.Pos(f.Pos()))
@@ -184,6 +188,18 @@ func Main(args []string) int {
 		if bad > 0 {
 			return 1
 		}
+		return 0
+	}
+	if *unmentioned {
+		var ids []string
+		for id := range registry {
+			ids = append(ids, id)
+		}
+		sort.Strings(ids)
+		for _, id := range ids {
+			runProp(p, hostCfg, id)
+		}
+		printUnmentioned(p)
 		return 0
 	}
 	c := run(p, hostCfg)
